@@ -68,6 +68,7 @@ func C02(p *load.Prog, r *oblig.Run) {
 	r.Rule("R01.b", "the line writer emits exactly 'level [@ptr@] TAG [value]'", 12)
 	c01Writer(p, r)
 	c01Encoder(p, r)
+	c01TagLookup(p, r)
 }
 
 // c02Rules: the decoder-loop rules; C01 (encode/decode round trip) runs them
